@@ -648,6 +648,12 @@ namespace bloch::update {
 
         const auto currentSem = parseSemVer(currentVersion);
         const auto latestSem = parseSemVer(*latest);
+        if (!currentSem.valid || !latestSem.valid) {
+            // hasLatest() is false for versions that do not parse; never install on that basis.
+            std::cerr << "Cannot compare versions (current '" << currentVersion << "', latest '"
+                      << *latest << "'); not updating." << std::endl;
+            return false;
+        }
         if (currentSem.valid && latestSem.valid && latestSem.major > currentSem.major) {
             std::cout << "A major Bloch update is available (" << currentVersion << " -> "
                       << *latest << "). Review changes: " << kChangelogUrl
